@@ -1059,4 +1059,197 @@ theorem derives_extension {d : Definition} {u : List Token} (hb : BodyOf d u) (h
       exact (Derives.nt (n := NT.typeExtension) (Derives.altR (Derives.altR (Derives.altR (Derives.altR (Derives.altR this)))))).cast
         (by simp) (by simp)
 
+/-! ### the document -/
+
+/-- one top-level item of a type-system document, tagged by the list of the tree it goes to -/
+inductive SItem
+  | schema (s : SchemaDef)
+  | schemaExt (s : SchemaDef)
+  | directive (d : DirectiveDef)
+  | definition (d : Definition)
+  | extension (d : Definition)
+
+def _root_.Gql.SchemaDoc.add (doc : SchemaDoc) : SItem → SchemaDoc
+  | .schema s => { doc with schema := doc.schema ++ [s] }
+  | .schemaExt s => { doc with schemaExt := doc.schemaExt ++ [s] }
+  | .directive d => { doc with directives := doc.directives ++ [d] }
+  | .definition d => { doc with definitions := doc.definitions ++ [d] }
+  | .extension d => { doc with extensions := doc.extensions ++ [d] }
+
+/-- sort key (recorded start offset) and unparse of an item -/
+def sItem : SItem → Nat × List Tok
+  | .schema s => (s.pos.start, printSchemaDef s)
+  | .schemaExt s => (s.pos.start, printSchemaExt s)
+  | .directive d => (d.pos.start, printDirectiveDef d)
+  | .definition d => (d.pos.start, printDefinition d)
+  | .extension d => (d.pos.start, printExtension d)
+
+/-- the grammar does not know enum values named `true` / `false` / `null`; the parser accepts them -/
+def SItem.enumOK : SItem → Prop
+  | .definition d => EnumOK d
+  | .extension d => EnumOK d
+  | _ => True
+
+def SItem.WF : SItem → Prop
+  | .schema s => WFSchemaDef s
+  | .schemaExt s => WFSchemaExt s
+  | .directive d => WFDirectiveDef d
+  | .definition d => WFDefBody d
+  | .extension d => WFDefBody d ∧ ExtendsSomething d
+
+/-- an item was parsed from `u`: its recorded position is that of a token of `u`, and (for enums:
+    if no value is a literal name) `u` derives a definition or extension with the unparse of the
+    item as canonical form, and the item is well-formed -/
+def PSItem (it : SItem) (u : List Token) : Prop :=
+  (∃ t ∈ u, (sItem it).1 = t.start) ∧
+    (it.enumOK → Derives gql (.nt .typeSystemDefinitionOrExtension) (tk u) (sItem it).2 ∧ it.WF)
+
+theorem spec_rejectDescription (has : Bool) : Spec (rejectDescription has) (fun _ a a' => has = false ∧ a' = a) := by
+  unfold rejectDescription
+  refine (Spec.ite (fun _ => Spec.of_dead (R := fun _ _ _ => False) fun s => ?_) (fun _ => Spec.pure ())).mono ?_
+  · show dead (run 0 (getPrev >>= fun pv => unexpectedToken pv) s).2 = true
+    rw [bind_eq, run_bind]
+    exact failAt_dead _ _ _
+  · rintro _ a a' _ (⟨_, hf⟩ | ⟨hb, _, rfl⟩)
+    · exact hf.elim
+    · exact ⟨by simpa using hb, rfl⟩
+
+theorem spec_parseOptionalDescription :
+    Spec parseOptionalDescription (fun r a a' => ∃ u, Ate a a' u ∧ PDesc r.1 u ∧ (r.2 = false → u = [])) := by
+  unfold parseOptionalDescription
+  refine (Spec.bind spec_peek fun x => Spec.ite
+    (fun _ => Spec.bind spec_parseDescription fun d => Spec.pure (d, true))
+    (fun _ => Spec.bind spec_peek fun y => Spec.ite
+      (fun _ => Spec.bind spec_parseDescription fun d => Spec.pure (d, true))
+      (fun _ => Spec.pure ([], false)))).mono ?_
+  rintro r a a'' _ ⟨x, a1, ⟨rfl, rfl⟩, ⟨_, d, a2, ⟨u, h, p, _⟩, rfl, rfl⟩ |
+    ⟨_, y, a2, ⟨rfl, rfl⟩, ⟨_, d, a3, ⟨u, h, p, _⟩, rfl, rfl⟩ | ⟨_, rfl, rfl⟩⟩⟩
+  · exact ⟨u, (Ate.peeked a).trans h, p, fun h => by cases h⟩
+  · exact ⟨u, (Ate.peeked a).trans ((Ate.peeked _).trans h), p, fun h => by cases h⟩
+  · exact ⟨[], (Ate.peeked a).trans (Ate.peeked _), Derives.optNone, fun _ => rfl⟩
+
+theorem mem_cons_of_mem_tail {t : Token} {x : Token} {u : List Token} (h : t ∈ u) : t ∈ x :: u := by simp [h]
+
+/-- `extend …` -/
+theorem spec_parseTypeSystemExtension (n : Nat) (doc : SchemaDoc) :
+    Spec (parseTypeSystemExtension n doc) (Eats fun doc' u => ∃ it, PSItem it u ∧ doc' = doc.add it) := by
+  unfold parseTypeSystemExtension
+  refine (Spec.bind (spec_expectKeyword kwExtend) fun _ => Spec.bind spec_peek fun t => Spec.ite
+    (fun _ => Spec.bind (spec_parseSchemaExtension n) fun d => Spec.pure _) fun _ => Spec.ite
+    (fun _ => Spec.bind (spec_parseScalarTypeExtension n) fun d => Spec.pure _) fun _ => Spec.ite
+    (fun _ => Spec.bind (spec_parseObjectTypeExtension n) fun d => Spec.pure _) fun _ => Spec.ite
+    (fun _ => Spec.bind (spec_parseInterfaceTypeExtension n) fun d => Spec.pure _) fun _ => Spec.ite
+    (fun _ => Spec.bind (spec_parseUnionTypeExtension n) fun d => Spec.pure _) fun _ => Spec.ite
+    (fun _ => Spec.bind (spec_parseEnumTypeExtension n) fun d => Spec.pure _) fun _ => Spec.ite
+    (fun _ => Spec.bind (spec_parseInputObjectTypeExtension n) fun d => Spec.pure _)
+    (fun _ => Spec.of_dead_bind (R := fun _ _ _ => False) unexpectedError_dead)).mono ?_
+  have key : ∀ {a1 a'' : AS} {text : Token} {a : AS} {d : Definition} {u : List Token}, Ate a a1 [text] → text.kind = .name →
+      text.value = kwExtend → Ate { a1 with pk := true } a'' u → BodyOf d u → d.desc = [] → ExtendsSomething d →
+      Eats (fun doc' u => ∃ it, PSItem it u ∧ doc' = doc.add it) (doc.add (.extension d)) a a'' := by
+    intro a1 a'' text a d u h0 k0 v0 h hb _ hx
+    refine ⟨_, h0.trans ((Ate.peeked a1).trans h), .extension d, ⟨?_, fun hen => ⟨?_, wf_of_body hb hen, hx⟩⟩, rfl⟩
+    · obtain ⟨_, _, _, _, ⟨t, ht, hs⟩, _⟩ := hb
+      exact ⟨t, by simp [ht], hs⟩
+    · have := derives_extension hb hx hen
+      exact (Derives.nt (n := NT.typeSystemDefinitionOrExtension) (Derives.altR (Derives.nt (n := NT.typeSystemExtension)
+        (Derives.altR this)))).cast (by simp [kwTok k0 v0]) rfl
+  rintro doc' a a'' _ ⟨text, a1, ⟨u0, h0, rfl, k0, v0⟩, t, a2, ⟨rfl, rfl⟩,
+    ⟨_, d, a3, ⟨u, h, p⟩, rfl, rfl⟩ | ⟨_, ⟨_, d, a3, ⟨u, h, p⟩, rfl, rfl⟩ | ⟨_, ⟨_, d, a3, ⟨u, h, p⟩, rfl, rfl⟩ |
+    ⟨_, ⟨_, d, a3, ⟨u, h, p⟩, rfl, rfl⟩ | ⟨_, ⟨_, d, a3, ⟨u, h, p⟩, rfl, rfl⟩ | ⟨_, ⟨_, d, a3, ⟨u, h, p⟩, rfl, rfl⟩ |
+    ⟨_, ⟨_, d, a3, ⟨u, h, p⟩, rfl, rfl⟩ | ⟨_, hf⟩⟩⟩⟩⟩⟩⟩⟩
+  · refine ⟨_, h0.trans ((Ate.peeked a1).trans h), .schemaExt d, ⟨?_, fun _ => ⟨?_, p.2.1⟩⟩, rfl⟩
+    · obtain ⟨t, ht, hs⟩ := p.2.2
+      exact ⟨t, by simp [ht], hs⟩
+    · have := L_schemaExt d p.2.1
+      exact (Derives.nt (n := NT.typeSystemDefinitionOrExtension) (Derives.altR (Derives.nt (n := NT.typeSystemExtension)
+        (Derives.altL this)))).cast (by simp [← p.1, kwTok k0 v0]) rfl
+  · exact key h0 k0 v0 h p.1 p.2.1 p.2.2
+  · exact key h0 k0 v0 h p.1 p.2.1 p.2.2
+  · exact key h0 k0 v0 h p.1 p.2.1 p.2.2
+  · exact key h0 k0 v0 h p.1 p.2.1 p.2.2
+  · exact key h0 k0 v0 h p.1 p.2.1 p.2.2
+  · exact key h0 k0 v0 h p.1 p.2.1 p.2.2
+  · exact hf.elim
+
+/-- what the schema document loop establishes -/
+def SDocRel (doc : SchemaDoc) : SchemaDoc → AS → AS → Prop := fun d a a' =>
+  ∃ items used, Ate a a' used ∧ a'.pk = true ∧ a'.σ.head.kind = .eof ∧ d = items.foldl SchemaDoc.add doc ∧
+    Many PSItem items used
+
+theorem SDocRel.cons {doc d : SchemaDoc} {it : SItem} {a a1 a' : AS} {u : List Token}
+    (h1 : Ate a a1 u) (p : PSItem it u) (h2 : SDocRel (doc.add it) d a1 a') : SDocRel doc d a a' := by
+  obtain ⟨items, used, g1, g2, g3, g4, g5⟩ := h2
+  exact ⟨it :: items, u ++ used, h1.trans g1, g2, g3, by simpa using g4, .cons p g5⟩
+
+theorem mem_append_right' {t : Token} {u v : List Token} (h : t ∈ v) : t ∈ u ++ v := by simp [h]
+
+theorem spec_schemaDocLoop (m : Nat) : ∀ (n : Nat) (doc : SchemaDoc), Spec (schemaDocLoop m n doc) (SDocRel doc)
+  | 0, doc => Spec.of_dead (outOfFuel_dead _)
+  | n + 1, doc => by
+    have ih := spec_schemaDocLoop m n
+    unfold schemaDocLoop
+    refine (Spec.bind spec_peek fun t => Spec.ite
+      (fun _ => Spec.bind spec_hasErr fun e => Spec.ite (fun _ => Spec.pure default)
+        (fun _ => Spec.bind spec_parseOptionalDescription
+          (R2 := fun x d a1 a' => ∀ uD a0, Ate a0 a1 uD → PDesc x.1 uD → (x.2 = false → uD = []) → SDocRel doc d a0 a') ?_))
+      (fun _ => Spec.pure doc)).mono ?_
+    · rintro ⟨desc, has⟩
+      refine (Spec.bind spec_peek fun c => Spec.ite
+        (fun _ => Spec.of_dead_bind (R := fun _ _ _ => False) unexpectedError_dead)
+        (fun _ => Spec.bind spec_peek fun d => Spec.ite
+          (fun _ => Spec.bind (spec_parseTypeSystemDefinition m desc) fun df => ih _) fun _ => Spec.ite
+          (fun _ => Spec.bind (spec_parseSchemaDefinition m desc) fun sd => ih _) fun _ => Spec.ite
+          (fun _ => Spec.bind (spec_parseDirectiveDefinition m desc) fun dd => ih _) fun _ => Spec.ite
+          (fun _ => Spec.bind (spec_rejectDescription has) fun _ =>
+            Spec.bind (spec_parseTypeSystemExtension m doc) fun doc' => ih doc')
+          (fun _ => Spec.of_dead_bind (R := fun _ _ _ => False) unexpectedError_dead))).mono ?_
+      rintro dfin a a'' _ ⟨c, a1, ⟨rfl, rfl⟩, ⟨_, hf⟩ | ⟨_, d, a2, ⟨rfl, rfl⟩,
+        ⟨_, df, a3, ⟨u, h, hb, hdesc⟩, hrest⟩ | ⟨_, ⟨_, sd, a3, ⟨u, h, p⟩, hrest⟩ | ⟨_, ⟨_, dd, a3, ⟨u, h, p⟩, hrest⟩ |
+        ⟨_, ⟨_, _, a3, ⟨hhas, rfl⟩, doc', a4, ⟨u, h, it, pit, rfl⟩, hrest⟩ | ⟨_, hf⟩⟩⟩⟩⟩⟩ uD a0 hD pD hU
+      · exact hf.elim
+      · -- type definition
+        have hu : Ate a0 a3 (uD ++ u) := hD.trans ((Ate.peeked a).trans ((Ate.peeked _).trans h))
+        refine SDocRel.cons (it := .definition df) hu ⟨?_, fun hen => ⟨?_, wf_of_body hb hen⟩⟩ hrest
+        · obtain ⟨_, _, _, _, ⟨t, ht, hs⟩, _⟩ := hb
+          exact ⟨t, mem_append_right' ht, hs⟩
+        · subst hdesc
+          have := derives_definition hb pD hen
+          exact (Derives.nt (n := NT.typeSystemDefinitionOrExtension) (Derives.altL (Derives.nt (n := NT.typeSystemDefinition)
+            (Derives.altR (Derives.altL this))))).cast (by simp) rfl
+      · -- schema definition
+        have hu : Ate a0 a3 (uD ++ u) := hD.trans ((Ate.peeked a).trans ((Ate.peeked _).trans h))
+        obtain ⟨hdesc, htk, hwf, ⟨t, ht, hs⟩⟩ := p
+        refine SDocRel.cons (it := .schema sd) hu ⟨⟨t, mem_append_right' ht, hs⟩, fun _ => ⟨?_, hwf⟩⟩ hrest
+        subst hdesc
+        have := derives_schemaDef sd hwf pD
+        exact (Derives.nt (n := NT.typeSystemDefinitionOrExtension) (Derives.altL (Derives.nt (n := NT.typeSystemDefinition)
+          (Derives.altL this)))).cast (by simp [htk]) rfl
+      · -- directive definition
+        have hu : Ate a0 a3 (uD ++ u) := hD.trans ((Ate.peeked a).trans ((Ate.peeked _).trans h))
+        obtain ⟨hdesc, hwf, ⟨t, ht, hs⟩, hder⟩ := p
+        refine SDocRel.cons (it := .directive dd) hu ⟨⟨t, mem_append_right' ht, hs⟩, fun _ => ⟨?_, hwf⟩⟩ hrest
+        have := hder pD
+        exact (Derives.nt (n := NT.typeSystemDefinitionOrExtension) (Derives.altL (Derives.nt (n := NT.typeSystemDefinition)
+          (Derives.altR (Derives.altR this))))).cast (by simp) rfl
+      · -- extension: no description
+        have hUD := hU hhas
+        subst hUD
+        have hu : Ate a0 a4 u := by
+          have := hD.trans ((Ate.peeked a).trans ((Ate.peeked _).trans h))
+          simpa using this
+        exact SDocRel.cons hu pit hrest
+      · exact hf.elim
+    · rintro d a a'' _ ⟨t, a1, ⟨rfl, rfl⟩, ⟨_, e, a2, ⟨rfl, rfl⟩, ⟨he, _⟩ | ⟨_, x, a3, ⟨uD, hD, pD, hU⟩, h⟩⟩ |
+        ⟨hk, rfl, rfl⟩⟩
+      · cases he
+      · exact h uD _ ((Ate.peeked a).trans hD) pD hU
+      · simp only [ne_eq, Decidable.not_not] at hk
+        exact ⟨[], [], Ate.peeked a, rfl, hk, rfl, .nil⟩
+
+theorem spec_parseSchemaDocument (n : Nat) : Spec (parseSchemaDocument n) (SDocRel SchemaDoc.empty) := by
+  unfold parseSchemaDocument
+  refine (Spec.bind spec_peekPos fun _ => spec_schemaDocLoop n n SchemaDoc.empty).mono ?_
+  rintro d a a'' _ ⟨_, a1, ⟨rfl, _⟩, items, used, g1, g⟩
+  exact ⟨items, used, by simpa using (Ate.peeked a).trans g1, g⟩
+
 end Gql.Parser
